@@ -214,6 +214,7 @@ pub fn kernel_fib_case(cx: &mut Ctx, n: u64, case: &Value) {
         cx.sample(case.clone());
     }
     cx.count("kernel_fib_cases", 1);
+    kernel_fib_i64(cx, case, b0, c0, so);
     // exact images: scalings by powers of two, the eight symmetries of the square, small integer translations
     let d4: [(f64, f64, f64, f64, i64); 8] = [(1.0, 0.0, 0.0, 1.0, 1), (0.0, -1.0, 1.0, 0.0, 1), (-1.0, 0.0, 0.0, -1.0, 1), (0.0, 1.0, -1.0, 0.0, 1),
                                               (-1.0, 0.0, 0.0, 1.0, -1), (1.0, 0.0, 0.0, -1.0, -1), (0.0, 1.0, 1.0, 0.0, -1), (0.0, -1.0, -1.0, 0.0, -1)];
@@ -255,6 +256,37 @@ pub fn kernel_fib_case(cx: &mut Ctx, n: u64, case: &Value) {
             let meets = Line::new(a, b).intersects(&Line::new(c, inner));
             if meets == (want_pos == "E") { cx.ok("fib_segment_intersects"); } else { cx.bad("C03", "fib_segment_intersects", case, json!({"what": what, "got": meets, "want": want_pos == "E"})); }
         }
+    }
+}
+
+/// Fibonacci triples through the INTEGER kernel: coordinates below 2^31, so both products of the determinant fit i64 (but not
+/// the 53-bit significand of f64): the exact sign is required (C03: "for the integer coordinate types the same holds whenever the
+/// intermediate products fit the type").
+fn kernel_fib_i64(cx: &mut Ctx, case: &Value, b0: (f64, f64), c0: (f64, f64), so: i64) {
+    let lim = 2f64.powi(31);
+    if [b0.0, b0.1, c0.0, c0.1].iter().any(|v| v.abs() >= lim || v.fract() != 0.0) {
+        cx.count("kernel_fib_i64_skipped", 1);
+        return;
+    }
+    cx.count("kernel_fib_i64_cases", 1);
+    for (t, what) in [((0i64, 0i64), "a at the origin"), ((3, -5), "translated by (3, -5)"), ((-1_000_000, 999_999), "translated by (-10^6, 10^6 - 1)")] {
+        let i = |p: (f64, f64)| Coord { x: p.0 as i64 + t.0, y: p.1 as i64 + t.1 };
+        let (a, b, c) = (i((0.0, 0.0)), i(b0), i(c0));
+        let got = [sign_of(SimpleKernel::orient2d(a, b, c)), sign_of(SimpleKernel::orient2d(c, a, b)), -sign_of(SimpleKernel::orient2d(b, a, c))];
+        if got == [so, so, so] { cx.ok("fib_orient2d_i64"); } else { cx.bad("C03", "fib_orient2d_i64", case, json!({"what": what, "got": got, "want": so})); }
+        let on = guard(|| Line::new(a, b).intersects(&c));
+        if on == Ok(false) { cx.ok("fib_point_on_segment_i64"); } else { cx.bad("C03", "fib_point_on_segment_i64", case, json!({"what": what, "got": format!("{on:?}"), "want": false})); }
+        let wo = guard(|| LineString::new(vec![a, b, c, a]).winding_order());
+        let want_wo = if so == 1 { Some(WindingOrder::CounterClockwise) } else { Some(WindingOrder::Clockwise) };
+        if wo == Ok(want_wo) { cx.ok("fib_winding_order_i64"); } else { cx.bad("C03", "fib_winding_order_i64", case, json!({"what": what, "got": format!("{wo:?}"), "want": format!("{want_wo:?}")})); }
+        // c against the triangle a, b, apex (apex = b turned by a quarter turn about a, on the left of a b): inside iff left of a b
+        if [b0.0, b0.1, c0.0, c0.1].iter().any(|v| v.abs() >= 2f64.powi(29)) {
+            continue;       // the ring test multiplies differences with the apex: keep every product inside i64
+        }
+        let apex = Coord { x: a.x - (b.y - a.y), y: a.y + (b.x - a.x) };
+        let want_pos = if so == 1 { "I" } else { "E" };
+        let pos = guard(|| pos_char(coord_pos_relative_to_ring(c, &LineString::new(vec![a, b, apex, a]))));
+        if pos.as_deref() == Ok(want_pos) { cx.ok("fib_point_in_ring_i64"); } else { cx.bad("C03", "fib_point_in_ring_i64", case, json!({"what": what, "got": format!("{pos:?}"), "want": want_pos})); }
     }
 }
 
